@@ -162,6 +162,18 @@ def _loop_exits(ix, loop):
             if a.get("k") in ("Loop", "While", "For", "Closure"):
                 return a
         return False
+    # a leading `if c { break }` is the loop's own condition (the `while !c` spelling): it is an exit, but not a
+    # condition of the exits behind it — as a while condition is not
+    lead = None
+    body_ = loop.get("body") or {}
+    st = (body_.get("stmts") or []) if body_.get("k") == "Block" else []
+    if loop.get("k") == "Loop" and st:
+        e0 = hq.peel(st[0].get("e") or {}) if st[0].get("k") == "ExprStmt" else {}
+        if e0.get("k") == "If" and e0.get("else") is None:
+            tb = e0["then"]
+            inner_ = [x for x in (tb.get("stmts") or [])] + ([tb["expr"]] if tb.get("expr") is not None else [])
+            if len(inner_) == 1 and hq.peel(inner_[0].get("e") if inner_[0].get("k") == "ExprStmt" else inner_[0]).get("k") == "Break":
+                lead = e0
     for n, par in H.walk(loop.get("body") or loop):
         k = n.get("k")
         if k not in ("Break", "Ret", "Try"):
@@ -177,6 +189,8 @@ def _loop_exits(ix, loop):
             sp = (node or {}).get("sp")
             if sp and lo <= sp[0] <= hi and pc["kind"] in ("if", "else", "arm", "arm-guard", "guard", "guard-else", "while", "and-lhs", "or-lhs"):
                 if node is loop:
+                    continue
+                if lead is not None and node is lead and pc["kind"] in ("guard", "guard-else"):
                     continue
                 conds.append(norm(pc["cond"]))
         tag = {"Break": "break", "Ret": "return", "Try": "?"}[k]
@@ -197,9 +211,12 @@ def loops(crate, fns):
             if k in ("Loop", "While"):
                 if (n.get("mac") or "").split(">")[0] in PANIC_MACROS:
                     continue
-                out.append({"fn": p, "kind": k.lower(), "line": n["sp"][2], "file": b["file"],
-                            "cond": norm(can(n["cond"])) if k == "While" else "",
-                            "exits": _loop_exits(ix, n)})
+                # `while c { B }` and `loop { if !c { break } B }` are one loop: both are listed as kind "loop", the
+                # while condition as the exit `break if !c`
+                ex = _loop_exits(ix, n)
+                if k == "While":
+                    ex = sorted(ex + ["break if %s" % norm(ix.neg(n["cond"]))])
+                out.append({"fn": p, "kind": "loop", "line": n["sp"][2], "file": b["file"], "cond": "", "exits": ex})
             elif k == "For":
                 it = n["iter"].get("ty", "")
                 auto = any(t in it for t in ("core::ops::Range<", "core::ops::RangeInclusive<", "core::slice::Iter", "core::slice::Chunks",
